@@ -16,12 +16,12 @@ from .. import build, impl, model, report, sexp
 from ..sexp import Q
 
 MANIFEST = dict(
-    text=('Theorems C05_roundtrip / C05_roundtrip_pinned / C05_roundtrip_trees / C05_layout_irrelevant / C13_printer_positions_true (Props/C05.v): for every printable '
+    text=('Theorems C05_roundtrip / C05_roundtrip_pinned / C05_roundtrip_trees / C05_layout_irrelevant / C13_printer_positions_true / C13_spans_sound_any_input / C13_error_span_sound_any_input (Props/C05.v): for every printable '
           'grammar tree g (Printer.wf) and every layout (blanks, newlines, form feeds, # comments at every token boundary, '
           '= or ::=, final ;, plain or escaped dots, redundant parentheses around items), the Gallina model of Grammar::parse '
           'applied to Printer.text g lay returns g with every span equal to the position the printer gave the construct '
           '(exactly, for the lexer with the span reset repaired; for the lexer as it is, the tree up to spans and exactly the '
-          'spans the reset mechanism predicts), hence the same tree for any two layouts. The model is tied to src/parse.rs by '
+          'spans the reset mechanism predicts), hence the same tree for any two layouts; and for every input text whatsoever the repaired model attaches only true nom_locate positions as spans (also to the ParseError). The model is tied to src/parse.rs by '
           'running the extracted model and Grammar::parse on the same texts (printed grammars and a malformed stream) and '
           'comparing tree, spans and ParseError span exactly; the character classes of the terminal lexer are regenerated '
           'from parse.rs on every run; Rust is also judged directly against the printed tree and the printer positions.'),
